@@ -237,11 +237,13 @@ def h64_salt(r, lo, hi):
 
 def openssl_passwd(ident: str, salt: str, ct: str):
     """Third implementation (OpenSSL's own crypt code) for default-round crypt hashes; None if n/a."""
-    if any(ch in ct for ch in "\r\n\x00") or salt == "" or len(ct.encode()) > 200:  # openssl passwd truncates at 256
+    if any(ch in ct for ch in "\r\n\x00") or salt == "" or ct == "" or len(ct.encode()) > 200:  # openssl passwd truncates at 256
         return None
     p = subprocess.run(["openssl", "passwd", "-" + ident, "-salt", salt, "-stdin"], input=(ct + "\n").encode(),
                        stdout=subprocess.PIPE, stderr=subprocess.PIPE)
-    return p.stdout.decode().strip() if p.returncode == 0 else None
+    out = p.stdout.decode().strip()
+    # `openssl passwd` prints <NULL> for inputs it refuses (e.g. an empty password line)
+    return out if p.returncode == 0 and out.startswith("$") else None
 
 
 def gen_one(r: random.Random, fmt: str, tier: str, ct: str):
